@@ -33,5 +33,26 @@ def field_linear_time(inp):
     return {'violates': bool(bad), 'detail': bad[:3], 'field_eom': 'f(t, states, a) = t'}
 
 
+def field_free_reduces_to_tempo(inp):
+    """a system that ignores the field, with an EXPLICITLY time dependent Hamiltonian and start_time != 0: MeanFieldTempo must
+    give the states of plain Tempo (same propagators at the same times)"""
+    import numpy as np
+    import oqupy
+    sx, sz = oqupy.operators.sigma('x'), oqupy.operators.sigma('z')
+    corr = oqupy.PowerLawSD(alpha=0.1, zeta=1.0, cutoff=3.0, cutoff_type='exponential', temperature=0.2)
+    bath = oqupy.Bath(0.5 * sz, corr)
+    par = oqupy.TempoParameters(dt=0.1, dkmax=3, epsrel=1e-8)
+    h = lambda t: (0.5 + 0.8 * np.sin(3.0 * t)) * sx + 0.3 * t * sz
+    rho0 = oqupy.operators.spin_dm('y+')
+    t0 = 0.5
+    ref = oqupy.Tempo(oqupy.TimeDependentSystem(h), bath, par, rho0, t0).compute(t0 + 0.6, progress_type='silent').states
+    mfs = oqupy.MeanFieldSystem([oqupy.TimeDependentSystemWithField(lambda t, a: h(t))], lambda t, states, a: -0.1 * a)
+    mf = oqupy.MeanFieldTempo(mean_field_system=mfs, bath_list=[bath], initial_state_list=[rho0], initial_field=0.3 + 0j, start_time=t0,
+                              parameters=par)
+    got = mf.compute(end_time=t0 + 0.6, progress_type='silent').system_dynamics[0].states
+    dev = float(np.abs(np.array(got) - np.array(ref)).max()) if len(got) == len(ref) else float('inf')
+    return {'violates': dev > 1e-9, 'max deviation MeanFieldTempo vs Tempo': dev}
+
+
 # thorough tier (bounded native sweeps): (function, inputs, obligation of the open finding it reproduces or None)
-THOROUGH = [('field_linear_time', {}, None)]
+THOROUGH = [('field_linear_time', {}, None), ('field_free_reduces_to_tempo', {}, None)]
